@@ -367,6 +367,53 @@ func (g treeGen) scalar() any {
 	return g.pick("v", "", "a b", "x=y", 1, 0, -3, true, false, nil, 1.5, "é", "[::1]", "1.2.3.4,5.6.7.8", "[ab]", "[]")
 }
 
+// hostsInput: a list-syntax or mapping-syntax extra_hosts value over IPv6-ish addresses, bare / bracketed / half-bracketed
+func (g treeGen) hostsInput() any {
+	r := g.ctx.Rng
+	hosts := []string{"h1", "h2.example", "h-3", "h1"}
+	addr := func() string {
+		ip := g.pick("::1", "fe80::1", "2001:db8::2", "1.2.3.4", "::ffff:10.1.2.3", "a", "").(string)
+		switch r.Intn(8) {
+		case 0, 1, 2:
+			g.ctx.Count("decode-hosts:bracketed")
+			return "[" + ip + "]" // "[]" and "[a]" sit on both sides of the len > 2 bound
+		case 3:
+			return "[" + ip
+		case 4:
+			return ip + "]"
+		}
+		return ip
+	}
+	n := 1 + r.Intn(3)
+	if r.Intn(2) == 0 {
+		g.ctx.Count("decode-hosts:list")
+		l := []any{}
+		for ; n > 0; n-- {
+			as := []string{addr()}
+			for r.Intn(3) == 0 {
+				as = append(as, addr())
+			}
+			l = append(l, hosts[r.Intn(len(hosts))]+g.pick("=", "=", ":").(string)+strings.Join(as, ","))
+		}
+		return l
+	}
+	g.ctx.Count("decode-hosts:mapping")
+	m := map[string]any{}
+	for ; n > 0; n-- {
+		if r.Intn(2) == 0 {
+			m[hosts[r.Intn(len(hosts))]] = addr()
+		} else {
+			g.ctx.Count("decode-hosts:mapping-list-valued")
+			as := []any{addr()}
+			for r.Intn(2) == 0 {
+				as = append(as, addr())
+			}
+			m[hosts[r.Intn(len(hosts))]] = as
+		}
+	}
+	return m
+}
+
 func (g treeGen) decodeInput(typ string) any {
 	r := g.ctx.Rng
 	keys := []string{"A", "b", "k.1", "host", "x-y", "K", ""}
@@ -396,6 +443,11 @@ func (g treeGen) decodeInput(typ string) any {
 		return g.pick("all", "ALL", "All", "3", "-1", "+7", "", "x", "1e3", " 1", 0, 5, -1, true, nil, 1.5, []any{}, "9223372036854775807", "9223372036854775808", "-9223372036854775808", "-9223372036854775809", "0x10", "1_0")
 	case "UlimitsConfig":
 		return g.pick(5, 0, -1, map[string]any{"soft": 1, "hard": 2}, map[string]any{"soft": 1}, map[string]any{}, map[string]any{"soft": "1"}, map[string]any{"hard": nil}, "5", nil, []any{1}, map[string]any{"soft": 3, "hard": 3, "x": 1})
+	}
+	// round 7: extra_hosts spellings with IPv6 / bracketed addresses (the `len(ip) > 2 && ip[0] == '[' && ip[len-1] == ']'`
+	// rule of cleanup() on both decode paths, several addresses per host, both separators, list-valued mapping entries)
+	if typ == "HostsList" && r.Intn(3) == 0 {
+		return g.hostsInput()
 	}
 	// mapping types
 	switch r.Intn(7) {
@@ -863,8 +915,8 @@ func (g pairGen) one(i int) {
 			}
 			var ls []string
 			var ms []any
-			for ; n > 0; n-- {
-				ip := ips[r.Intn(len(ips))]
+			for _, j := range r.Perm(len(ips))[:n] { // distinct addresses: a repeated address is a duplicate item once the mapping is rendered as a list
+				ip := ips[j]
 				if strings.Contains(ip, ":") {
 					g.count("hosts:ipv6")
 				}
